@@ -14,6 +14,16 @@
    Part 3  the state machine Init -> Discover -> Raw -> QInit -> QBlock* -> QFinish -> Convert -> Done over every small
            filesystem (class and zero/non-zero of every block, both marking modes) and the invariants.
 
+   Part 4  the boundary catalogue of the conformance universe (filesystem sizes around the L2-table / refcount-block
+           boundaries; blocks around the integer-width boundaries of the offset arithmetic), enumerated for the harness
+           by Emit_E2image.tla.
+
+   Offset arithmetic.  Every byte offset / index the writer and the reader compute is stated with the width of the C type
+   it is evaluated in (W* below); the model holds offsets in clusters, Shl(c, w) is the cluster a byte offset c << CBits
+   evaluated in w-bit unsigned arithmetic addresses.  With the widths of the code (64 bits wherever a position of the
+   filesystem is computed) Shl is the identity on every filesystem; a narrower evaluation wraps filesystem positions
+   at byte 2^w (MC_E2image_narrow_*.cfg: TLC must find the contract violation).
+
    Deviations of the pinned tree (DESIGN 3.5), literal behaviour kept behind constants:
      DevEaInodeDataSkipped   the blocks of an EA inode (values of large extended attributes) are walked with
                              process_file_block like a regular file, so a metadata image does not contain them
@@ -115,16 +125,36 @@ FailedClasses(o, all) == {c \in Classes : Marks(c, all) /\ Cnt(o, c).diff # 0}
 -----------------------------------------------------------------------------
 (* Part 2: the qcow2 writer and reader, in clusters.  A cluster of the file holds one tagged value. *)
 
+\* ---- widths.  CBits = log2(cluster size in bytes) (the model's clusters are 2 bytes; conformance runs substitute the real
+\* value).  W* = width in bits of the C type in which the code evaluates the computation (definitions, so that a
+\* configuration can substitute a narrower evaluation: CONSTANT WOffOut <- Narrow32).
+CBits    == 1
+WSrcPos  == 64      \* unix_io raw_read_blk():      location = (ext2_loff_t) block * channel->block_size  (position read in the source)
+WRawPos  == 64      \* output_meta_data_blocks():   position of block b in the raw file = b * blocksize, kept as the file position
+                    \*                              (ext2_loff_t) and advanced by relative seeks of at most 1 MiB + blocksize (int sparse)
+WVirt    == 64      \* initialize_qcow2_image():    total_size = ext2fs_blocks_count(sb) << cluster_bits  (blk64_t; header.size be64)
+WOffOut  == 64      \* qcow2_write_raw_image():     off_out = ((__u64) l1_index * l2_size + l2_index) << cluster_bits
+\* not modelled with a width because no boundary is reachable in the universe (stated for the catalogue): add_l2_item()
+\* l1_index = blk / l2_size, l2_index = blk & (l2_size - 1) on blk64_t (block numbers >= 2^31 need a 2 TiB filesystem);
+\* file offsets of the qcow2 file (blk64_t offset, be64 L1 / L2 / refcount-table entries, __u64 off_in; __u32 table_index
+\* = offset >> (2 * cluster_bits - 1)) reach 2^31 only for an image holding 2 GiB of non-zero blocks
+Narrow32 == CBits + 2                                  \* a 32-bit evaluation scaled to the model: wraps after 4 clusters
+\* cluster addressed by the byte offset (c << CBits) evaluated in w-bit unsigned arithmetic (it stays cluster aligned);
+\* every quantity of the model and of the universe is below 2^31, a width the integers cannot reach is the identity
+Shl(c, w) == IF w - CBits >= 31 THEN c ELSE c % (2 ^ (w - CBits))
+
 Blocks  == 0 .. NB - 1
-L1N     == (NB + L2N - 1) \div L2N                   \* l1_size = (total_size + (1 << shift) - 1) >> shift
-MaxC    == 3 * NB + 12                                 \* clusters the model file can grow to (invariant FileFits)
+VirtSize == Shl(NB, WVirt)                             \* total_size, in clusters
+L1N     == (VirtSize + L2N - 1) \div L2N             \* l1_size = (total_size + (1 << shift) - 1) >> shift
+L1C     == (L1N + L2N - 1) \div L2N                  \* clusters of the L1 table: align_offset(l1_size * sizeof(blk64_t), cluster_size)
+MaxC    == 3 * NB + 12 + L1C                           \* clusters the model file can grow to (invariant FileFits)
 Clus    == 0 .. MaxC
 None    == [t |-> "none", v |-> 0, d |-> <<>>]
 Tag(t, v, d) == [t |-> t, v |-> v, d |-> d]
 
 \* fixed layout of initialize_qcow2_image(): header | L1 | refcount table | (one cluster skipped) | first L2 | first refcount block
 L1Off   == 1
-RtOff   == 2                                           \* L1 fits one cluster in the model (real: align(l1_size * 8))
+RtOff   == L1Off + L1C                                 \* the refcount table takes one cluster (checked by the harness on real files)
 L2Off0  == RtOff + 1 + 1                               \* offset += cluster_size; offset += refcount_table_clusters << cluster_bits
 RbOff0  == L2Off0 + 1
 
@@ -209,7 +239,10 @@ QEpilogue(q) ==
         q2 == [q1 EXCEPT !.rt = [q1.rt EXCEPT ![q1.rtidx] = q1.rboff]]
         q3 == WriteAt(q2, RtOff, Tag("rt", 0, q2.rt))
         q4 == WriteAt(q3, q3.rboff, Tag("rb", q3.rtidx, q3.rb))
-    IN WriteAt(q4, L1Off, Tag("l1", 0, q4.l1))
+        q5 == WriteAt(q4, L1Off, Tag("l1", 0, q4.l1))                                        \* the whole table is held by its first cluster,
+        RECURSIVE Rest(_, _)                                                                 \* the clusters it continues into are only occupied
+        Rest(qq, k) == IF k >= L1C THEN qq ELSE Rest(WriteAt(qq, L1Off + k, Tag("l1x", k, <<>>)), k + 1)
+    IN Rest(q5, 1)
 
 \* clusters the finished file uses, and the refcount the file records for a cluster
 UsedClusters(f) == {c \in Clus : f[c].t # "none"}
@@ -223,16 +256,25 @@ Lookup(f, b)    == LET l2c == f[L1Off].d[b \div L2N] IN
                    ELSE IF f[l2c].t # "l2" THEN -1
                    ELSE f[l2c].d[b % L2N]
 
-\* qcow2_write_raw_image(): walk L1, skip entries that are zero or "beyond the image", copy every mapped cluster
-Convert(f) ==
+\* a file written piecewise: W = set of writes [pos, ord, val] (cluster position, order of the write, content); the last
+\* write to a position wins.  The result is a function on the positions written (everything else is a hole).
+Overlay(W) == [p \in {w.pos : w \in W} |->
+                 (CHOOSE w \in W : w.pos = p /\ \A x \in W : x.pos = p => x.ord <= w.ord).val]
+Dense(sp)  == [b \in Blocks |-> IF b \in DOMAIN sp THEN sp[b] ELSE 0]
+
+\* qcow2_write_raw_image(): walk L1, skip entries that are zero or "beyond the image", walk every L2 table read and copy
+\* each mapped cluster to  off_out = ((__u64) l1_index * l2_size + l2_index) << cluster_bits  of the output
+ConvWrites(f) ==
     LET l1 == f[L1Off].d
         fsz == FileSize(f)
         Skipped(i) == l1[i] = 0 \/ (IF DevL1VsVirtualSize THEN l1[i] > NB ELSE l1[i] >= fsz)
-        copied == [b \in Blocks |->
-          LET i == b \div L2N IN
-          IF Skipped(i) \/ f[l1[i]].t # "l2" THEN 0
-          ELSE LET e == f[l1[i]].d[b % L2N] IN
-               IF e = 0 THEN 0 ELSE IF f[e].t = "data" THEN f[e].v ELSE -1]
+        tabs == {i \in DOMAIN l1 : ~Skipped(i) /\ f[l1[i]].t = "l2"}
+    IN UNION {{[pos |-> Shl(i * L2N + j, WOffOut), ord |-> i * L2N + j,
+                val |-> LET e == f[l1[i]].d[j] IN IF f[e].t = "data" THEN f[e].v ELSE -1]
+               : j \in {j \in 0 .. L2N - 1 : f[l1[i]].d[j] # 0}} : i \in tabs}
+ConvFile(f) == Overlay(ConvWrites(f))
+Convert(f) ==
+    LET copied == Dense(ConvFile(f))
     IN \* "Resize the output image to the filesystem size": one zero byte written at image_size - 1
        IF DevLastByteZeroed /\ copied[NB - 1] > 0 THEN [copied EXCEPT ![NB - 1] = -2] ELSE copied
 
@@ -258,19 +300,24 @@ Init == /\ phase = "init"
         /\ marked = {} /\ raw = <<>> /\ q = QState0 /\ nb = 0 /\ conv = <<>>
 
 Content(b) == IF src[b] = 0 THEN 0 ELSE b + 1
+\* io_channel_read_blk64(fs->io, blk, 1, buf): what the tool holds after reading block b of the source
+Read(b)    == Content(Shl(b, WSrcPos))
 
 Discover == /\ phase = "init" /\ phase' = "disc"
             /\ marked' = {b \in Blocks : Marks(cls[b], all)}
             /\ UNCHANGED <<cls, src, all, raw, q, nb, conv>>
-\* output_meta_data_blocks(): marked blocks copied (a zero block is a hole: E2IMAGE_CHECK_ZERO_FLAG on a new file), holes elsewhere
+\* output_meta_data_blocks(): marked blocks copied in ascending order, each at position b * blocksize of the output (a zero
+\* block is a hole: E2IMAGE_CHECK_ZERO_FLAG on a new file), holes elsewhere
+RawWrites(M) == {[pos |-> Shl(b, WRawPos), ord |-> b, val |-> Read(b)] : b \in {x \in M : Read(x) # 0}}
+RawFile(M)   == Overlay(RawWrites(M))
 Raw == /\ phase = "disc" /\ phase' = "raw"
-       /\ raw' = [b \in Blocks |-> IF b \in marked THEN Content(b) ELSE 0]
+       /\ raw' = Dense(RawFile(marked))
        /\ UNCHANGED <<cls, src, all, marked, q, nb, conv>>
 QInit == /\ phase = "raw" /\ phase' = "qblk"
          /\ q' = QPrologue /\ nb' = 0
          /\ UNCHANGED <<cls, src, all, marked, raw, conv>>
 QBlock == /\ phase = "qblk" /\ nb < NB
-          /\ q' = IF nb \in marked /\ src[nb] # 0 THEN QBlockStep(q, nb, Content(nb)) ELSE q      \* check_zero_block(): continue
+          /\ q' = IF nb \in marked /\ Read(nb) # 0 THEN QBlockStep(q, nb, Read(nb)) ELSE q      \* check_zero_block(): continue
           /\ nb' = nb + 1
           /\ UNCHANGED <<phase, cls, src, all, marked, raw, conv>>
 QFinish == /\ phase = "qblk" /\ nb = NB /\ phase' = "conv"
@@ -307,7 +354,7 @@ MapExact == Finished => \A b \in Blocks :
                IF b \in marked /\ src[b] # 0 THEN m > 0 /\ q.file[m].t = "data" /\ q.file[m].v = Content(b) /\ q.file[m].d = <<b>>
                ELSE m = 0
 RefcountExact == Finished => \A c \in UsedClusters(q.file) : RefOf(q.file, c) = 1
-L2TablesDistinct == Finished => \A i, j \in 0 .. L1N - 1 : i # j /\ q.l1[i] # 0 => q.l1[i] # q.l1[j]
+L2TablesDistinct == Finished => \A i, j \in {k \in 0 .. L1N - 1 : q.l1[k] # 0} : i # j => q.l1[i] # q.l1[j]
 \* (e) converting the qcow2 image back gives the directly produced raw image
 ConvertEqualsRaw == phase = "done" => conv = raw
 \* with DevL1VsVirtualSize the only divergence allowed is the named one: whole L2 tables lying beyond the virtual size are dropped
@@ -317,4 +364,25 @@ ConvertEqualsRawOrDev ==
         \/ (DevL1VsVirtualSize /\ q.l1[b \div L2N] > NB /\ conv[b] = 0)
         \/ (DevLastByteZeroed /\ b = NB - 1 /\ conv[b] = -2)
 DevReachable == ~(phase = "done" /\ conv # raw)          \* expected to be VIOLATED when a Dev* constant of the reader is TRUE (shows the deviation is reachable)
+
+-----------------------------------------------------------------------------
+(* Part 4: the boundary catalogue of the conformance universe (Emit_E2image.tla hands it to the harness).
+
+   (a) filesystem sizes <<block size, blocks>> on / next to the L2-table boundaries (cluster_size / 8 blocks per table: 128
+       at 1 KiB, 256 at 2 KiB, 512 at 4 KiB) and the group boundary, per-group bitmaps, so that the tables of the last
+       group are the last mapped clusters;
+   (b) integer-width boundaries: a position of the filesystem computed in a C type narrower than 64 bits (int, unsigned,
+       long on ILP32, __u32) changes sign at byte 2^31 and wraps at byte 2^32.  For every block size of WideBlockSizes the
+       universe holds one filesystem larger than 2^32 bytes with non-zero metadata in the block just below, at and just
+       above each of these byte offsets (WidthTargets); the layout trace requires the blocks to be mapped (Covers).
+       Block NUMBERS 2^31 / 2^32 (a 2 TiB filesystem at 1 KiB blocks) and qcow2 FILE offsets 2^31 / 2^32 (2 GiB of imaged
+       blocks) are not reached.                                                                                        *)
+SizesQuick == {<<1024, n>> : n \in {1280, 1281, 1343, 1407, 1408, 1409}} \cup {<<4096, n>> : n \in {2048, 2049, 2559, 2560, 2561}}
+SizesMore  == {<<1024, n>> : n \in {1100, 1151, 1152, 1153, 1279, 1344, 1345, 1535, 1536, 1537, 2047, 2048, 2049, 2175, 2176, 2177}}
+              \cup {<<4096, n>> : n \in {2100, 2303, 2304, 2305, 3071, 3072, 3073}} \cup {<<2048, n>> : n \in {2048, 2303, 2304, 2305}}
+WidthBoundaryBits == {31, 32}
+WidthTargets(cb)  == {2 ^ (w - cb) + d : w \in WidthBoundaryBits, d \in {-1, 0, 1}}          \* block numbers, cluster size 2^cb
+WideBlocks(cb)    == 2 ^ (32 - cb) + 2 ^ (32 - cb) \div 16                                   \* 4.25 GiB: two more groups beyond byte 2^32
+WideQuick == {12}                                                                            \* log2 of the block sizes: 4 KiB
+WideMore  == {10}                                                                            \*                          1 KiB
 =============================================================================
